@@ -8,7 +8,7 @@ CONSTANTS
   SetVals = {}
   NbVals = {}
   Starts = {"fork", "forkserver"}
-  Hows = {"default", "fork", "spawn"}
+  Hows = {"default", "spawn"}
   POps = {"setstart", "import", "checkmp", "launch"}
   COps = {"import"}
   NW = 0
@@ -30,6 +30,7 @@ PROPERTY StopSticky
 PROPERTY DoneIsFinal
 PROPERTY RaiseStops
 PROPERTY FlagPerProcess
+PROPERTY PbpOneThread
 ACTION_CONSTRAINT EmitTransition
 VIEW View
 CHECK_DEADLOCK FALSE
